@@ -208,3 +208,15 @@ Definition key_value (out : bytes) : option (list Z) :=
   | q :: _ => if (q =? 34) || (q =? 39) || (q =? 96) then literal_value out else ident_value out
   | [] => None
   end.
+
+(* MemberExpression . IdentifierName  /  MemberExpression [ StringLiteral ]:
+   the property key denoted by the text printed after the object expression *)
+Definition member_key (out : bytes) : option (list Z) :=
+  match out with
+  | 46 :: rest => ident_value rest
+  | 91 :: rest => match rev rest with
+                  | 93 :: inner_rev => literal_value (rev inner_rev)
+                  | _ => None
+                  end
+  | _ => None
+  end.
